@@ -395,4 +395,161 @@ theorem measure_cancel {c : Cfg} {s s' : State} {p : Nat} (h : step c s (.cancel
   · simp at h; subst h; rfl
 
 
+
+/-! ### each operation is called once -/
+
+/-- call events against the program counters, and their uniqueness -/
+structure CallU (s : State) : Prop where
+  cm3 : ∀ x ∈ s.log, ∀ (t i : Nat) (op : Op), x.2 = .call t i op → ∀ (th : Thread), s.ths[t]? = some th →
+          i < th.pc ∨ (i = th.pc ∧ th.loc ≠ .idle)
+  uniq : ∀ x ∈ s.log, ∀ y ∈ s.log, ∀ (t i : Nat) (op op' : Op), x.2 = .call t i op → y.2 = .call t i op' → x = y
+  exists_th : ∀ x ∈ s.log, ∀ (t i : Nat) (op : Op), x.2 = .call t i op → t < s.ths.length
+
+theorem CallU.goto {s σ : State} (h : CallU s) {t : Nat} {th : Thread} (hth : s.ths[t]? = some th)
+    (e1 : σ.ths = s.ths) (e2 : σ.log = s.log) (e3 : σ.clock = s.clock) (loc : Loc) (evs : List Ev)
+    (hloc : loc ≠ .idle)
+    (hcall : (∃ op, th.loc = .idle ∧ evs = [.call t th.pc op]) ∨ (th.loc ≠ .idle ∧ evs = [])) :
+    CallU (σ.goto t th loc evs) := by
+  obtain ⟨h1, h2, h3⟩ := h
+  have ht := lt_of_getElem? hth
+  have hnew : ∀ x, x.1 = s.clock ∧ x.2 ∈ evs → ∃ op, th.loc = .idle ∧ x = (s.clock, .call t th.pc op) := by
+    rintro ⟨k, e⟩ ⟨hk, he⟩
+    rcases hcall with ⟨op, hl, rfl⟩ | ⟨hl, rfl⟩
+    · simp at he hk; subst he hk; exact ⟨op, hl, rfl⟩
+    · simp at he
+  constructor <;> simp only [State.goto, tick_ths, setTh_ths, tick_log, setTh_log, setTh_clock, e1, e2, e3,
+    List.mem_append, mem_stamp, List.length_set]
+  · intro x hx u i op hop x' hx'
+    rcases hx with hx | hx
+    · rcases getElem?_set_cases hx' with ⟨rfl, rfl⟩ | ⟨hne, hu⟩
+      · rcases h1 x hx _ i op hop th hth with h | ⟨h, _⟩
+        · exact Or.inl h
+        · exact Or.inr ⟨h, hloc⟩
+      · exact h1 x hx u i op hop x' hu
+    · obtain ⟨op', hl, rfl⟩ := hnew x hx
+      simp at hop; obtain ⟨rfl, rfl, rfl⟩ := hop
+      rcases getElem?_set_cases hx' with ⟨_, rfl⟩ | ⟨hne, hu⟩
+      · exact Or.inr ⟨rfl, hloc⟩
+      · exact absurd rfl hne
+  · intro x hx y hy u i op op' hxo hyo
+    rcases hx with hx | hx <;> rcases hy with hy | hy
+    · exact h2 x hx y hy u i op op' hxo hyo
+    · obtain ⟨op2, hl, rfl⟩ := hnew y hy
+      simp at hyo; obtain ⟨rfl, rfl, rfl⟩ := hyo
+      rcases h1 x hx _ _ op hxo th hth with h | ⟨_, h⟩
+      · omega
+      · exact absurd hl h
+    · obtain ⟨op2, hl, rfl⟩ := hnew x hx
+      simp at hxo; obtain ⟨rfl, rfl, rfl⟩ := hxo
+      rcases h1 y hy _ _ op' hyo th hth with h | ⟨_, h⟩
+      · omega
+      · exact absurd hl h
+    · obtain ⟨op2, _, rfl⟩ := hnew x hx
+      obtain ⟨op3, _, rfl⟩ := hnew y hy
+      rcases hcall with ⟨op4, _, rfl⟩ | ⟨_, rfl⟩
+      · simp at hx hy; rw [hx, hy]
+      · simp at hx
+  · intro x hx u i op hop
+    rcases hx with hx | hx
+    · exact h3 x hx u i op hop
+    · obtain ⟨op', hl, rfl⟩ := hnew x hx
+      simp at hop; obtain ⟨rfl, _, _⟩ := hop; exact ht
+
+
+theorem CallU.finish {s σ : State} (h : CallU s) {t : Nat} {th : Thread} (hth : s.ths[t]? = some th)
+    (e1 : σ.ths = s.ths) (e2 : σ.log = s.log) (e3 : σ.clock = s.clock) (r : Ret) (evs : List Ev)
+    (hcall : (∃ op, th.loc = .idle ∧ evs = [.call t th.pc op]) ∨ (th.loc ≠ .idle ∧ evs = [])) :
+    CallU (σ.finish t th r evs) := by
+  obtain ⟨h1, h2, h3⟩ := h
+  have ht := lt_of_getElem? hth
+  have hnew : ∀ x, x.1 = s.clock ∧ x.2 ∈ evs ++ [Ev.ret t th.pc r] → ∀ u i op, x.2 = .call u i op →
+      ∃ op', th.loc = .idle ∧ x = (s.clock, .call t th.pc op') := by
+    rintro ⟨k, e⟩ ⟨hk, he⟩ u i op hop
+    rcases hcall with ⟨op', hl, rfl⟩ | ⟨hl, rfl⟩
+    · simp at he hk hop; subst hk
+      rcases he with rfl | rfl
+      · exact ⟨op', hl, rfl⟩
+      · simp at hop
+    · simp at he hop; subst he; simp at hop
+  constructor <;> simp only [State.finish, tick_ths, setTh_ths, tick_log, setTh_log, setTh_clock, e1, e2, e3,
+    List.mem_append, mem_stamp, List.length_set]
+  · intro x hx u i op hop x' hx'
+    rcases hx with hx | hx
+    · rcases getElem?_set_cases hx' with ⟨rfl, rfl⟩ | ⟨hne, hu⟩
+      · rcases h1 x hx _ i op hop th hth with h | ⟨h, _⟩
+        · exact Or.inl (Nat.lt_succ_of_lt h)
+        · exact Or.inl (by simp [h])
+      · exact h1 x hx u i op hop x' hu
+    · obtain ⟨op', hl, rfl⟩ := hnew x (by simpa [List.mem_append] using hx) u i op hop
+      simp at hop; obtain ⟨rfl, rfl, rfl⟩ := hop
+      rcases getElem?_set_cases hx' with ⟨_, rfl⟩ | ⟨hne, hu⟩
+      · exact Or.inl (by simp)
+      · exact absurd rfl hne
+  · intro x hx y hy u i op op' hxo hyo
+    rcases hx with hx | hx <;> rcases hy with hy | hy
+    · exact h2 x hx y hy u i op op' hxo hyo
+    · obtain ⟨op2, hl, rfl⟩ := hnew y (by simpa [List.mem_append] using hy) u i op' hyo
+      simp at hyo; obtain ⟨rfl, rfl, rfl⟩ := hyo
+      rcases h1 x hx _ _ op hxo th hth with h | ⟨_, h⟩
+      · omega
+      · exact absurd hl h
+    · obtain ⟨op2, hl, rfl⟩ := hnew x (by simpa [List.mem_append] using hx) u i op hxo
+      simp at hxo; obtain ⟨rfl, rfl, rfl⟩ := hxo
+      rcases h1 y hy _ _ op' hyo th hth with h | ⟨_, h⟩
+      · omega
+      · exact absurd hl h
+    · obtain ⟨op2, _, rfl⟩ := hnew x (by simpa [List.mem_append] using hx) u i op hxo
+      obtain ⟨op3, _, rfl⟩ := hnew y (by simpa [List.mem_append] using hy) u i op' hyo
+      rcases hcall with ⟨op4, _, rfl⟩ | ⟨_, rfl⟩
+      · simp at hx hy; rw [hx, hy]
+      · simp at hx
+  · intro x hx u i op hop
+    rcases hx with hx | hx
+    · exact h3 x hx u i op hop
+    · obtain ⟨op', hl, rfl⟩ := hnew x (by simpa [List.mem_append] using hx) u i op hop
+      simp at hop; obtain ⟨rfl, _, _⟩ := hop; exact ht
+
+theorem CallU.frameG {s s' : State} (h : CallU s) (e0 : s'.ths = s.ths)
+    (hl : Appends s s' (fun e => ∀ t i op, e ≠ .call t i op)) : CallU s' := by
+  obtain ⟨evs, hlog, _, hev⟩ := hl
+  obtain ⟨h1, h2, h3⟩ := h
+  have hold : ∀ x, x ∈ s'.log → ∀ u i op, x.2 = .call u i op → x ∈ s.log := by
+    intro x hx u i op hop
+    rw [hlog] at hx
+    rcases List.mem_append.mp hx with hx | hx
+    · exact hx
+    · rw [mem_stamp] at hx; exact absurd hop (hev _ hx.2 u i op)
+  constructor
+  · intro x hx u i op hop; rw [e0]; exact h1 x (hold x hx u i op hop) u i op hop
+  · intro x hx y hy u i op op' hxo hyo; exact h2 x (hold x hx u i op hxo) y (hold y hy u i op' hyo) u i op op' hxo hyo
+  · intro x hx u i op hop; rw [e0]; exact h3 x (hold x hx u i op hop) u i op hop
+
+theorem ThStep.callU {c : Cfg} {s s' : State} {t : Nat} {th : Thread} (h : CallU s)
+    (hth : s.ths[t]? = some th) (hs : ThStep c s t th s') : CallU s' := by
+  cases hs with
+  | startReturned p ho hl | close ho hl | waitFinished ho hl | runningFinished ho hl =>
+    apply h.finish hth <;> first | rfl | exact Or.inl ⟨_, hl, rfl⟩
+  | startAlready p ho hl | startUndo p ho hl | startOnceDone p ho hl | startNil p ho hl | waitNotStarted ho hl
+  | waitDone ho hl | runningLoad ho hl =>
+    apply h.finish hth <;> first | rfl | exact Or.inr ⟨by simp [hl], rfl⟩
+  | startCheck p ho hl | waitCheck ho hl | runningCheck ho hl =>
+    apply h.goto hth <;> first | rfl | (simp; done) | exact Or.inl ⟨_, hl, rfl⟩
+  | startSwap p ho hl | startRecheck p ho hl | startClaim p ho hl | startLaunch p ho hl | startStore p ho hl
+  | waitStarted ho hl =>
+    apply h.goto hth <;> first | rfl | (simp; done) | exact Or.inr ⟨by simp [hl], rfl⟩
+
+theorem Trans.callU {c : Cfg} {s s' : State} (h : CallU s) (hs : Trans c s s') : CallU s' := by
+  cases hs with
+  | th t th hth hs => exact hs.callU h hth
+  | rg hs => cases hs <;> (apply h.frameG <;> first | rfl | appends)
+  | sd hs => cases hs <;> (apply h.frameG <;> first | rfl | appends)
+  | eh hs => cases hs <;> (apply h.frameG <;> first | rfl | appends)
+  | cancelParent p hp => apply h.frameG <;> first | rfl | appends
+
+theorem CallU.reachable {c : Cfg} (hc : c.current) {ps : List (List Op)} {s : State} (hr : Reachable c ps s) : CallU s :=
+  reachable_induction CallU
+    ⟨fun x hx => by simp [Service.init] at hx, fun x hx => by simp [Service.init] at hx, fun x hx => by simp [Service.init] at hx⟩
+    (fun _ _ _ h hs => (step_sound hc hs).callU h) hr
+
+
 end FunModel.Service
